@@ -1,5 +1,6 @@
 \* the code as it stands: what holds regardless of the known leads
-\* (tools/checks/c09.py builds its configurations from the same template; this file is the thorough-tier one, for manual runs:
+\* (tools/checks/c09.py builds its configurations from the same template - the Fix* switches of the configurations that model
+\*  the real code come from its REPAIRED table; this file is the thorough-tier one, for manual runs:
 \*  java -cp $TLA_CP tlc2.TLC -config StreamCli_mc_asis.cfg StreamCliMC)
 SPECIFICATION Spec
 CONSTANTS
@@ -12,8 +13,8 @@ CONSTANTS
   ClassSet = {"bnd", "field", "name", "id", "idfull", "data", "datafull"}
   AnswerSet = {"terr", "ok", "5xx", "404"}
   FixScanner = FALSE
-  FixCursor = FALSE
-  Fix5xx = FALSE
+  FixCursor = TRUE
+  Fix5xx = TRUE
 INVARIANTS TypeOK InvCleanFailure InvNoTruncated
 PROPERTIES Terminates
 CHECK_DEADLOCK FALSE
